@@ -16,8 +16,14 @@ tie to code: a pipeline plugin (harness/c11_plugin.py) translates every explored
                (5) model text (fresh object, and after the history [pool0, pool1, p]) = real text
                (6) top-level declarations visited from three hand-set states: texts and final state
                (7) model state after a history = the real object's attributes
-               (8) `tu.is_sam` on every class = model's answer (= False, theorem is_sam_never)
-             and replays the witnesses of the counterexample theorems and of finding 14 on the real code.
+               (8) `tu.is_sam` on every class = model's answer (= False, theorem is_sam_never)      [Kotlin]
+               (9) model text after [pool0] and an explicit `_reset_state()` = real text        [Scala]
+             Modelled: Kotlin (Props/C11.lean) and Scala (Props/C11Scala.lean, namespace Heph.Props.C11.Scala,
+             audited with C11: Scala.visit_state, Scala.history_independent, Scala.translate_twice,
+             Scala.reset_state_forgets, …; model lean/Heph/Model/TransScala.lean, ops trans.scala*).
+             Replays the witnesses of the counterexample theorems (Kotlin and Scala: a block with a super-class
+             instantiation visited at ident 4), the demo program of Props/C11Scala.lean built with the real
+             classes (real text = model text = text of the Lean example) and finding 14 on the real code.
 failing input: (1)–(3) are judged on the real code alone, so a difference IS the failing input
              (language, generator replay (lang, seed, switches, depth), stage, history, first differing
              declaration).  If only (5)–(8) break, the history battery is re-run with all 12 histories
